@@ -17,6 +17,7 @@ package simrt
 
 import (
 	"fmt"
+	"iter"
 	"runtime"
 	"sort"
 	"strconv"
@@ -494,6 +495,38 @@ func MapKeys[K comparable, V any](m map[K]V, site string) []K {
 	return out
 }
 
+// MapKeysSeq / MapValuesSeq / MapAllSeq stand in for maps.Keys / maps.Values / maps.All of the standard library:
+// the same iterators, over the tape-chosen key order.
+func MapKeysSeq[K comparable, V any](m map[K]V, site string) iter.Seq[K] {
+	return func(yield func(K) bool) {
+		for _, k := range MapKeys(m, site) {
+			if !yield(k) {
+				return
+			}
+		}
+	}
+}
+
+func MapValuesSeq[K comparable, V any](m map[K]V, site string) iter.Seq[V] {
+	return func(yield func(V) bool) {
+		for _, k := range MapKeys(m, site) {
+			if !yield(m[k]) {
+				return
+			}
+		}
+	}
+}
+
+func MapAllSeq[K comparable, V any](m map[K]V, site string) iter.Seq2[K, V] {
+	return func(yield func(K, V) bool) {
+		for _, k := range MapKeys(m, site) {
+			if !yield(k, m[k]) {
+				return
+			}
+		}
+	}
+}
+
 // ---------------------------------------------------------------------------
 // scheduler-loop side (harness)
 // ---------------------------------------------------------------------------
@@ -589,4 +622,3 @@ func (s *Sched) DrainWake() {
 	default:
 	}
 }
-
